@@ -1,6 +1,6 @@
 // rainvc:pkg internal/resumer/boltdbresumer
 // rainvc:function internal/resumer/boltdbresumer.(*Resumer).Write / Read / WriteInfo / WriteBitfield / WriteStarted / HandleStopAfterDownload / HandleStopAfterMetadata / WriteCompleteCmdRun
-// rainvc:bound a base Spec and, one field at a time, every value of a per-field list of boundary values (ports 0/1/65535, counters 0/1/MaxInt64, durations 0/1ns/1h1m1.5s/MaxInt64, all five booleans, empty/unicode/quoted names, 0..3 tracker tiers, nil/empty/binary byte strings of 1..300 bytes, times with and without zone offsets); each written with Write and read back, then each partial writer applied to each and read back
+// rainvc:bound a base Spec and, one field at a time, every value of a per-field list of boundary values (ports 0/1/65535, counters 0/1/MaxInt64, durations 0/1ns/1h1m1.5s/MaxInt64, all five booleans, empty/unicode/quoted names, 0..3 tracker tiers, nil/empty/binary byte strings of 1..300 bytes, times with and without zone offsets and with nanoseconds, tracker / web-seed / peer strings that are not valid UTF-8); each written with Write and read back, then each partial writer applied to each and read back
 package boltdbresumer
 
 // Bounded stand-in (bbolt, JSON and strconv codecs are library code, outside the generator's
@@ -15,9 +15,28 @@ import (
 	"reflect"
 	"testing"
 	"time"
+	"unicode/utf8"
 
 	"go.etcd.io/bbolt"
 )
+
+func allValidUTF8(s Spec) bool {
+	for _, tier := range s.Trackers {
+		for _, u := range tier {
+			if !utf8.ValidString(u) {
+				return false
+			}
+		}
+	}
+	for _, l := range [][]string{s.URLList, s.FixedPeers} {
+		for _, u := range l {
+			if !utf8.ValidString(u) {
+				return false
+			}
+		}
+	}
+	return true
+}
 
 func TestRainvcBounded(t *testing.T) {
 	db, err := bbolt.Open(filepath.Join(t.TempDir(), "resume.db"), 0o600, nil)
@@ -78,6 +97,15 @@ func TestRainvcBounded(t *testing.T) {
 	}
 	vary(func(s *Spec) { s.Info = nil })
 	vary(func(s *Spec) { s.Bitfield = nil })
+	// strings that JSON cannot carry unchanged: the record must either refuse them or give them back
+	for _, v := range [][][]string{{{"http://h/ann\xffounce"}}, {{"http://ok/"}, {"udp://\xc3\x28:1"}}} {
+		vary(func(s *Spec) { s.Trackers = v })
+	}
+	for _, v := range [][]string{{"http://w/\xff"}, {"ok", "\xfe\xfe"}} {
+		vary(func(s *Spec) { s.URLList = v })
+		vary(func(s *Spec) { s.FixedPeers = v })
+	}
+	vary(func(s *Spec) { s.AddedAt = time.Date(2024, 2, 29, 23, 59, 58, 123456789, time.UTC) })
 	for _, v := range []time.Time{time.Unix(0, 0).UTC(), time.Date(2030, 12, 31, 0, 0, 0, 0, time.FixedZone("x", 3*3600+1800)), time.Date(1999, 1, 1, 12, 0, 0, 0, time.FixedZone("y", -8*3600))} {
 		vary(func(s *Spec) { s.AddedAt = v })
 	}
@@ -123,6 +151,9 @@ func TestRainvcBounded(t *testing.T) {
 	for i, s := range specs {
 		id := fmt.Sprintf("t%d", i)
 		if err := res.Write(id, &s); err != nil {
+			if !allValidUTF8(s) {
+				continue // refused: what cannot be stored unchanged is not stored
+			}
 			t.Fatalf("violation: spec %d: write failed: %v", i, err)
 		}
 		readBack(fmt.Sprintf("spec %d after Write", i), id, s)
